@@ -15,6 +15,7 @@ def tweak(rng, u):
 
 def run(rep, tier, build, replay=None):
     dbfam.run_family(rep, tier, 'C11', 11, [dboracles.oracle_relations], 40, 600, tweak)
+    dbfam.run_tables_stream(rep, tier, 'C11', 1111, 6, 120, mode='', fuel=True)
     rep.coverage['rule'] = ('generated universes (plain lexicons, second versions, extensions adding relations to base senses '
                             'and synsets) with arbitrary sense-sense, sense-synset and synset-synset relation graphs (self-loops, '
                             'cycles, parallel relations of different type or dc:type, duplicates, non-standard types, metadata); '
